@@ -1,0 +1,77 @@
+//go:build verif
+
+// Package verifhook provides instrumentation points for the external
+// verification harness (build tag "verif"). A site can be traced, held
+// until released, or made to kill the process, controlled either
+// in-process (Fn) or through files in $VERIF_HOOK_DIR:
+//
+//	trace            every passage appends "<pid> <site>\n"
+//	hold.<site>      while this file exists a passage creates at.<site>.<pid>.<n>
+//	                 and waits until go.<site>.<n> (or go.<site>) exists or hold.<site> is removed
+//	crash.<site>     contains N: the N-th passage of the site SIGKILLs the process
+package verifhook
+
+import (
+	"fmt"
+	"os"
+	"path/filepath"
+	"strconv"
+	"strings"
+	"sync"
+	"syscall"
+	"time"
+)
+
+// Fn, when set, is called at every site instead of the file protocol.
+var Fn func(site string)
+
+var (
+	mu     sync.Mutex
+	counts = map[string]int{}
+	dir    = os.Getenv("VERIF_HOOK_DIR")
+)
+
+func exists(p string) bool {
+	_, err := os.Stat(p)
+	return err == nil
+}
+
+// At marks a named site in the code.
+func At(site string) {
+	if f := Fn; f != nil {
+		f(site)
+		return
+	}
+	if dir == "" {
+		return
+	}
+	mu.Lock()
+	counts[site]++
+	n := counts[site]
+	if tf, err := os.OpenFile(filepath.Join(dir, "trace"), os.O_APPEND|os.O_CREATE|os.O_WRONLY, 0o644); err == nil {
+		fmt.Fprintf(tf, "%d %s\n", os.Getpid(), site)
+		tf.Close()
+	}
+	mu.Unlock()
+
+	if b, err := os.ReadFile(filepath.Join(dir, "crash."+site)); err == nil {
+		if want, err := strconv.Atoi(strings.TrimSpace(string(b))); err == nil && want == n {
+			syscall.Kill(os.Getpid(), syscall.SIGKILL)
+			time.Sleep(time.Hour)
+		}
+	}
+
+	hold := filepath.Join(dir, "hold."+site)
+	if !exists(hold) {
+		return
+	}
+	at := filepath.Join(dir, fmt.Sprintf("at.%s.%d.%d", site, os.Getpid(), n))
+	os.WriteFile(at, nil, 0o644)
+	for i := 0; i < 60000; i++ {
+		if exists(filepath.Join(dir, fmt.Sprintf("go.%s.%d", site, n))) || exists(filepath.Join(dir, "go."+site)) || !exists(hold) {
+			break
+		}
+		time.Sleep(time.Millisecond)
+	}
+	os.Remove(at)
+}
